@@ -191,6 +191,14 @@ fn exec_op<'a>(warc: &Arc<World>, w: &'a World, _ix: usize, op: &Op, guards: &mu
             0
         }
         "nop" => 0,
+        "reset_steps" => {
+            shuttle::current::reset_step_count();
+            0
+        }
+        "realsleep" => {
+            std::thread::sleep(std::time::Duration::from_millis(op.v as u64));
+            0
+        }
         "acc" => acc,
         "me" => me() as i64,
         "park" => {
